@@ -21,7 +21,7 @@
 //
 // Known defects of the optimizer are avoided unless lifted (-lift name,name
 // or -include-known): optmerge-inverted (D11), optshare (D10), optlabels (D5),
-// optthrow (D13).
+// optthrow (D13), optbytes (O1, findings_opt/O1-optbytes.txt).
 //
 // One JSON object on stdout; exit status 0 unless the tool cannot run.
 package main
@@ -121,7 +121,7 @@ func main() {
 		rep.Seen(it.dump, it.nodes >= 3)
 		rep.Count("rules_per_grammar", fmt.Sprint(it.rules), 1)
 		rep.Count("alternate_entrypoints", fmt.Sprint(it.neps), 1)
-		rep.Count("blocks_per_grammar", pvpeg.SizeBucket(it.blocks * 16)[:5], 1)
+		rep.Count("blocks_per_grammar", blockBucket(it.blocks), 1)
 		rep.KindHistogram("node_kinds_before", it.before[:])
 		rep.KindHistogram("node_kinds_after", it.after[:])
 		rep.Count("optimizer", "rules_removed", it.removed)
@@ -425,6 +425,18 @@ func evaluate(seed int64, i, k int, lf lifts) (it *item) {
 		}
 	}
 	return it
+}
+
+func blockBucket(n int) string {
+	switch {
+	case n == 0:
+		return "0"
+	case n < 4:
+		return "1-3"
+	case n < 8:
+		return "4-7"
+	}
+	return "8+"
 }
 
 // newIn returns the first element of now that is not in before.
